@@ -68,12 +68,20 @@ class DocumentModel:
         return out
 
     def flow_document(self, walk_exempt=True) -> LabelFlow:
-        return LabelFlow(self.fn, {"input_file": frozenset({ABS}), "settings": EMPTY},
-                         attr_labels=settings_attr_labels, call_result=ctor_result, walk_exempt=walk_exempt)
+        ps = [a.arg for a in self.fn.args.args]
+        labels = {ps[0]: frozenset({ABS})} if ps else {}
+        for extra in ps[1:]:
+            labels[extra] = EMPTY
+        return LabelFlow(self.fn, labels, attr_labels=settings_attr_labels, call_result=ctor_result, walk_exempt=walk_exempt)
 
     def flow_single(self) -> LabelFlow:
-        return LabelFlow(self.single, {"file": frozenset({ABS}), "root": frozenset({ABS}), "settings": EMPTY},
-                         attr_labels=settings_attr_labels, call_result=ctor_result)
+        ps = [a.arg for a in self.single.args.args]
+        labels = {ps[0]: frozenset({ABS})} if ps else {}
+        if len(ps) > 1:
+            labels[ps[1]] = frozenset({ABS})
+        for extra in ps[2:]:
+            labels[extra] = EMPTY
+        return LabelFlow(self.single, labels, attr_labels=settings_attr_labels, call_result=ctor_result)
 
     def walk_body_index(self, node) -> Optional[int]:
         """Index of the top-level statement of the walk-loop body that contains node."""
@@ -93,6 +101,10 @@ def settings_attr_labels(text: str) -> Optional[FrozenSet[str]]:
     if text.endswith("output.directory"):
         return frozenset({OUT})
     if text.startswith(("settings.", "new_settings.", "self.settings.")):
+        return EMPTY
+    # <any name>.input.<option> / .rst.<option> / .output.<option> / .logging.<option>: a settings object whatever it is called
+    parts = text.split(".")
+    if len(parts) >= 3 and parts[-2] in ("input", "rst", "output", "logging") and all(p.isidentifier() for p in parts):
         return EMPTY
     return None
 
@@ -1042,6 +1054,9 @@ def rule_match_sites(rep: Report, repo: Repo, rule: str) -> None:
             for x in parts:
                 if any(y is c for y in ast.walk(x)):
                     continue
+                pr = classify_predicate(x)
+                if role == "file" and pr is not None and pr[:3] == ("suffix", ".cmake", True) and pr[3] == norm(loop.target):
+                    continue        # only files that can be processed at all are tested: the same set
                 extra.append(norm(x))
         rep.check(not extra, rule, where, f"{role} match is the only condition of the removal",
                   f"entries are only tested against the exclude patterns when `{extra[0][:60] if extra else ''}` holds: the others bypass "
@@ -1466,7 +1481,11 @@ def rule_same_source(rep: Report, repo: Repo, rule: str) -> None:
     # subdirectory entries only under `recursive`
     for l in dir_toc:
         gs = guards_of(dm.fn, l, dm.parents)
-        ok = any(norm(g.test) in ("recursive", "settings.input.recursive") and g.polarity for g in gs)
+        sp = dm.fn.args.args[1].arg if len(dm.fn.args.args) > 1 else "settings"
+        rnames = {f"{sp}.input.recursive"} | {norm(n.targets[0]) for n in walk_no_nested(dm.fn) if isinstance(n, ast.Assign)
+                                               and len(n.targets) == 1 and isinstance(n.targets[0], ast.Name)
+                                               and norm(n.value) == f"{sp}.input.recursive"}
+        ok = any(norm(g.test) in rnames and g.polarity for g in gs)
         rep.check(ok, rule, where, "subdirectory toctree entries guarded by `recursive`",
                   "subdirectory index entries are emitted in non-recursive mode, where no sub index is written",
                   witness="cminx -o out dir-with-subdirs   (without -r)")
@@ -1573,8 +1592,12 @@ def rule_recursion_switch(rep: Report, repo: Repo, rule: str) -> None:
     dm = DocumentModel(repo)
     where = f"{MOD}:document"
     last = dm.walk.body[-1]
+    settings_param = dm.fn.args.args[1].arg if len(dm.fn.args.args) > 1 else "settings"
+    flag = f"{settings_param}.input.recursive"
+    flags = {flag} | {norm(n.targets[0]) for n in walk_no_nested(dm.fn) if isinstance(n, ast.Assign) and len(n.targets) == 1
+                      and isinstance(n.targets[0], ast.Name) and norm(n.value) == flag}
     ok = isinstance(last, ast.If) and not last.orelse and len(last.body) == 1 and isinstance(last.body[0], ast.Break) \
-        and norm(last.test) in ("not recursive", "not settings.input.recursive", "recursive is False", "recursive == False")
+        and any(norm(last.test) in (f"not {f}", f"{f} is False", f"{f} == False") for f in flags)
     rep.check(ok, rule, where, norm(last)[:60].replace("\n", " "),
               "the os.walk loop does not end with `if not recursive: break`: non-recursive runs descend into subdirectories "
               "or recursive runs stop early", witness="cminx -o out dir   (no -r) with sub/x.cmake")
@@ -1599,15 +1622,17 @@ def rule_isolation(rep: Report, repo: Repo, rule: str) -> None:
                    "objects are never written through")
     dm = DocumentModel(repo)
     where = f"{MOD}:document"
+    sp_doc = dm.fn.args.args[1].arg if len(dm.fn.args.args) > 1 else "settings"          # the settings parameter, by position
+    sp_single = dm.single.args.args[2].arg if len(dm.single.args.args) > 2 else "settings"
     # deep copy exists
     copies = [n for n in walk_no_nested(dm.fn) if isinstance(n, ast.Assign) and isinstance(n.value, ast.Call)
-              and call_name(n.value) == "copy.deepcopy" and n.value.args and norm(n.value.args[0]) == "settings"]
+              and call_name(n.value) == "copy.deepcopy" and n.value.args and norm(n.value.args[0]) == sp_doc]
     rep.check(bool(copies), rule, where, "new_settings = copy.deepcopy(settings)",
               "settings are not deep-copied per input: per-input changes (prefix) leak into the next input of the same run",
               witness="cminx dirA dirB  -> dirB pages carry dirA's prefix")
     copy_names = {norm(n.targets[0]) for n in copies}
     # stores through `settings` in document / document_single_file
-    for fn, q in ((dm.fn, "document"), (dm.single, "document_single_file")):
+    for fn, q, sp in ((dm.fn, "document", sp_doc), (dm.single, "document_single_file", sp_single)):
         for n in walk_no_nested(fn):
             tgts = []
             if isinstance(n, ast.Assign):
@@ -1619,7 +1644,7 @@ def rule_isolation(rep: Report, repo: Repo, rule: str) -> None:
                     base = t
                     while isinstance(base, (ast.Attribute, ast.Subscript)):
                         base = base.value
-                    if isinstance(base, ast.Name) and base.id == "settings":
+                    if isinstance(base, ast.Name) and base.id == sp:
                         rep.bad(rule, f"{MOD}:{q}", norm(n)[:70],
                                 "stores into the caller's settings object: the change is visible to every later input of the run",
                                 witness="cminx dirA dirB")
@@ -1627,12 +1652,12 @@ def rule_isolation(rep: Report, repo: Repo, rule: str) -> None:
                 base = n.func.value
                 while isinstance(base, (ast.Attribute, ast.Subscript)):
                     base = base.value
-                if isinstance(base, ast.Name) and base.id == "settings":
+                if isinstance(base, ast.Name) and base.id == sp:
                     rep.bad(rule, f"{MOD}:{q}", norm(n)[:70], "mutates the caller's settings object")
     # the settings passed down from document() are the copy, and prefix is stored in the copy
     for c in calls_in(dm.fn):
         if call_name(c).endswith("document_single_file"):
-            arg = c.args[2] if len(c.args) > 2 else next((k.value for k in c.keywords if k.arg == "settings"), None)
+            arg = c.args[2] if len(c.args) > 2 else next((k.value for k in c.keywords if k.arg == sp_single), None)
             rep.check(arg is not None and norm(arg) in copy_names, rule, where, norm(c)[:70].replace("\n", " "),
                       "document_single_file receives the caller's settings instead of the per-input copy (the default prefix is lost "
                       "or leaks)")
